@@ -1371,7 +1371,9 @@ func (s *LoadingStore[K, V]) Get(ctx context.Context, key K) (V, error) {
 				loaded.Cost = s.cost(loaded.Value)
 			}
 
-			if err == nil {
+			// same as Set: an entry larger than the cache is returned to caller but not stored,
+			// otherwise it evicts every resident entry and then itself
+			if err == nil && loaded.Cost <= int64(s.cap) {
 				result = s.setShardWithoutLock(shard, h, key, loaded.Value, loaded.Cost, expire, false)
 				entryCost = loaded.Cost
 				entryExpire = expire
